@@ -163,7 +163,12 @@ fn merge(a: &mut Value, b: Value) {
 // =============================================================================================
 mod c17 {
     use super::*;
-    use barter::statistic::summary::dataset::DataSetSummary;
+    use barter::{
+        engine::state::position::PositionExited,
+        statistic::summary::{dataset::DataSetSummary, pnl::PnLReturns},
+    };
+    use barter_execution::trade::AssetFees;
+    use barter_instrument::{Side, asset::QuoteAsset, instrument::InstrumentIndex};
 
     pub const SCALES: [i32; 3] = [-9, 0, 9];
 
@@ -231,24 +236,120 @@ mod c17 {
         Ok(())
     }
 
+    /// store + restore (spec action Persist): a serde round trip of a running generator must be a
+    /// stutter - the same public figures right away, and every later figure unchanged
+    pub fn roundtrip<T: serde::Serialize + serde::de::DeserializeOwned>(x: &T) -> Result<T, String> {
+        let js = serde_json::to_string(x).map_err(|e| format!("serialise: {e}"))?;
+        serde_json::from_str(&js).map_err(|e| format!("deserialise: {e}"))
+    }
+    fn persist_ds(ds: &mut DataSetSummary, what: &str) -> Result<(), String> {
+        let back = roundtrip(ds).map_err(|e| format!("Persist {what}: {e}"))?;
+        let (before, after) = (project(ds), project(&back));
+        if before != after || back.dispersion.std_dev != ds.dispersion.std_dev {
+            return Err(format!("Persist {what}: restored summary shows {after} (std_dev {}), stored one {before} (std_dev {})", back.dispersion.std_dev, ds.dispersion.std_dev));
+        }
+        *ds = back;
+        Ok(())
+    }
+
+    /// when the running summary is stored and restored: 0 only where the scenario says so,
+    /// 1 after every update, 2 after a pseudo-random subset
+    fn persist_after(mode: u64, salt: u64, k: usize, flagged: bool) -> bool {
+        match mode {
+            1 => true,
+            2 => pick(salt, k as u64, 13, 2) == 1,
+            _ => flagged,
+        }
+    }
+
+    /// How the values reach the summaries
+    #[derive(Clone, Copy, PartialEq)]
+    pub enum Route {
+        /// DataSetSummary::update(x)
+        Direct,
+        /// PnLReturns::update(closed position with return x): `total` is the running summary of all
+        /// returns, `losses` that of the negative ones, pnl_raw their sum (cost of every position = 1)
+        PnL,
+    }
+
     /// feed `xs` (already in the order to use) at scale e10; compare after every update when
     /// `exps` has one expectation per prefix, else only the final state with `exps[last]`.
-    fn run(xs: &[i64], exps: &[&Value], e10: i32, every: bool, st: &mut ErrStats, steps: &mut u64) -> Result<(), (usize, String, Value)> {
+    /// `negs`: the expectations for the losing returns (route PnL).
+    #[allow(clippy::too_many_arguments)]
+    fn run(route: Route, xs: &[i64], exps: &[&Value], negs: &[&Value], flags: &[bool], persist: (u64, u64), e10: i32, every: bool,
+           st: &mut ErrStats, steps: &mut u64, persists: &mut u64) -> Result<(), (usize, String, Value)> {
         let mut ds = DataSetSummary::default();
+        let mut pr = PnLReturns::default();
+        let shown = |ds: &DataSetSummary, pr: &PnLReturns| if route == Route::Direct { project(ds) } else {
+            json!({"total": project(&pr.total), "losses": project(&pr.losses), "pnl_raw": pr.pnl_raw.to_string()})
+        };
         check(&empty_exp(), &ds, e10, st).map_err(|e| (0, format!("initial state: {e}"), project(&ds)))?;
         for (k, x) in xs.iter().enumerate() {
-            let pre = project(&ds);
+            let pre = shown(&ds, &pr);
             let v = scaled_dec(*x, e10);
             *steps += 1;
-            if let Err(p) = catch(|| ds.update(v)) {
-                return Err((k, format!("DataSetSummary::update({v}) panicked: {p}"), pre));
-            }
-            if every || k + 1 == xs.len() {
-                let exp = if every { exps[k] } else { exps[exps.len() - 1] };
-                check(exp, &ds, e10, st).map_err(|e| (k, e, pre.clone()))?;
-                if e10 == 0 {
-                    json_match(exp, &project(&ds), "dataset").map_err(|e| (k, e, pre))?;
+            match route {
+                Route::Direct => {
+                    if let Err(p) = catch(|| ds.update(v)) {
+                        return Err((k, format!("DataSetSummary::update({v}) panicked: {p}"), pre));
+                    }
                 }
+                Route::PnL => {
+                    // cost price * quantity = 1 exactly, so the return is the realised PnL itself
+                    let (price, qty) = [(Decimal::ONE, Decimal::ONE), (Decimal::TWO, Decimal::new(5, 1)), (Decimal::new(25, 2), Decimal::from(4))][k % 3];
+                    let pos: PositionExited<QuoteAsset, InstrumentIndex> = PositionExited {
+                        instrument: InstrumentIndex(0),
+                        side: if k % 2 == 0 { Side::Buy } else { Side::Sell },
+                        price_entry_average: price,
+                        quantity_abs_max: qty,
+                        pnl_realised: v,
+                        fees_enter: AssetFees::quote_fees(Decimal::ZERO),
+                        fees_exit: AssetFees::quote_fees(Decimal::ZERO),
+                        time_enter: time(2 * k as i64),
+                        time_exit: time(2 * k as i64 + 1),
+                        trades: vec![],
+                    };
+                    if let Err(p) = catch(|| pr.update(&pos)) {
+                        return Err((k, format!("PnLReturns::update(pnl_realised {v}) panicked: {p}"), pre));
+                    }
+                }
+            }
+            let judge = |ds: &DataSetSummary, pr: &PnLReturns, st: &mut ErrStats, after: &str| -> Result<(), String> {
+                if !(every || k + 1 == xs.len()) {
+                    return Ok(());
+                }
+                let last = exps.len() - 1;
+                let (exp, neg) = if every { (exps[k], negs[k]) } else { (exps[last], negs[last]) };
+                match route {
+                    Route::Direct => {
+                        check(exp, ds, e10, st).map_err(|e| format!("{e}{after}"))?;
+                        if e10 == 0 {
+                            json_match(exp, &project(ds), "dataset")?;
+                        }
+                    }
+                    Route::PnL => {
+                        check(exp, &pr.total, e10, st).map_err(|e| format!("PnLReturns.total.{e}{after}"))?;
+                        check(neg, &pr.losses, e10, st).map_err(|e| format!("PnLReturns.losses.{e}{after}"))?;
+                        let (n, d) = rat_of(&exp["sum"]).unwrap();
+                        close(n, d, e10, pr.pnl_raw, "PnLReturns.pnl_raw", st)?;
+                    }
+                }
+                Ok(())
+            };
+            judge(&ds, &pr, st, "").map_err(|e| (k, e, pre.clone()))?;
+            if persist_after(persist.0, persist.1, k, flags.get(k).copied().unwrap_or(false)) && k + 1 < xs.len() + 1 {
+                *persists += 1;
+                let r = match route {
+                    Route::Direct => persist_ds(&mut ds, "DataSetSummary"),
+                    Route::PnL => roundtrip(&pr).map_err(|e| format!("Persist PnLReturns: {e}")).and_then(|back| {
+                        if shown(&ds, &back) != shown(&ds, &pr) {
+                            return Err(format!("Persist PnLReturns: restored {} , stored {}", shown(&ds, &back), shown(&ds, &pr)));
+                        }
+                        pr = back;
+                        Ok(())
+                    }),
+                };
+                r.and_then(|_| judge(&ds, &pr, st, " (after a store/restore)")).map_err(|e| (k, e, pre))?;
             }
         }
         Ok(())
@@ -378,17 +479,31 @@ mod c17 {
         let mut res = Results::new(args.req("out"));
         let mut st = ErrStats::default();
         let (mut perms_run, mut multisets) = (0u64, 0u64);
+        let (mut persists, mut routes) = (0u64, [0u64; 2]);
         for (n, scn) in scenarios.iter().enumerate() {
             let vi = vidx(scn, n);
             let steps = scn["vals"].as_array().unwrap_or_else(|| usage("scenario without vals"));
             let xs: Vec<i64> = steps.iter().map(|s| i(s, "x")).collect();
             let exps: Vec<&Value> = steps.iter().map(|s| &s["exp"]).collect();
+            let empty = empty_exp();
+            let negs: Vec<&Value> = steps.iter().map(|s| s.get("neg").unwrap_or(&empty)).collect();
+            let has_neg = steps.iter().all(|s| s.get("neg").is_some());
+            let flags: Vec<bool> = steps.iter().map(|s| s.get("persist").and_then(|x| x.as_bool()).unwrap_or(false)).collect();
+            let pmode = scn.get("persist_mode").and_then(|x| x.as_u64());
             let mut failure = None;
-            // (1) the sequence as given, every prefix, every scale
-            for e10 in SCALES {
-                if let Err((k, e, pre)) = run(&xs, &exps, e10, true, &mut st, &mut res.steps) {
-                    failure = Some((k, e, pre, e10, xs.clone()));
-                    break;
+            // (1) the sequence as given, every prefix, every scale, both routes; the running state is
+            //     stored and restored (Persist) where the scenario says so / after every / some updates
+            'main: for route in [Route::Direct, Route::PnL] {
+                if route == Route::PnL && !has_neg {
+                    continue;
+                }
+                for (j, e10) in SCALES.iter().enumerate() {
+                    let persist = (pmode.unwrap_or_else(|| pick(seed, vi, 20 + j as u64, 3)), pick(seed, vi, 30 + j as u64, 1 << 32));
+                    if let Err((k, e, pre)) = run(route, &xs, &exps, &negs, &flags, persist, *e10, true, &mut st, &mut res.steps, &mut persists) {
+                        failure = Some((k, e, pre, *e10, xs.clone(), route, persist.0));
+                        break 'main;
+                    }
+                    routes[route as usize] += 1;
                 }
             }
             // (2) order-freedom: other arrival orders of the same multiset meet the same batch value
@@ -424,8 +539,9 @@ mod c17 {
                 'o: for p in orders {
                     for e10 in SCALES {
                         perms_run += 1;
-                        if let Err((k, e, pre)) = run(&p, &exps, e10, false, &mut st, &mut res.steps) {
-                            failure = Some((k, format!("arrival order {p:?}: {e}"), pre, e10, p.clone()));
+                        let persist = (pmode.unwrap_or_else(|| pick(seed, vi, perms_run, 3)), perms_run);
+                        if let Err((k, e, pre)) = run(Route::Direct, &p, &exps, &negs, &[], persist, e10, false, &mut st, &mut res.steps, &mut persists) {
+                            failure = Some((k, format!("arrival order {p:?}: {e}"), pre, e10, p.clone(), Route::Direct, persist.0));
                             break 'o;
                         }
                     }
@@ -433,10 +549,12 @@ mod c17 {
             }
             match failure {
                 None => res.ok(n, vi, json!({})),
-                Some((k, e, pre, e10, order)) => res.fail(
+                Some((k, e, pre, e10, order, route, pm)) => res.fail(
                     n, vi, k, e,
-                    json!({"update": order.get(k).map(|x| format!("{x}e{e10}")), "order": order, "scale_e10": e10}),
-                    pre, json!({"scale_e10": e10}),
+                    json!({"update": order.get(k).map(|x| format!("{x}e{e10}")), "order": order, "scale_e10": e10,
+                           "route": if route == Route::Direct { "DataSetSummary::update" } else { "PnLReturns::update" },
+                           "store_restore": (["where the scenario says", "after every update", "after some updates"][pm as usize % 3])}),
+                    pre, json!({"scale_e10": e10, "persist_mode": pm}),
                 ),
             }
         }
@@ -444,6 +562,7 @@ mod c17 {
         res.out.finish();
         println!("{}", json!({"scenarios": scn, "failed": failed, "updates": steps, "orders_replayed": perms_run,
             "multisets_permuted": multisets, "scales_e10": SCALES, "comparisons": st.comparisons,
+            "arm_hits": {"store_restore": persists, "runs_DataSetSummary_update": routes[0], "runs_PnLReturns_update": routes[1]},
             "max_abs_error": st.max_abs.to_string(), "max_error_over_tolerance": st.max_err_over_tol.to_string()}));
     }
 }
@@ -485,12 +604,20 @@ mod c18 {
         /// (asset / instr; it folds into Max / Mean by design, which are no longer judged then)
         live: u64,
         salt: u64,
+        /// store + restore of the generators: 0 where the scenario says so, 1 after every point, 2 after some
+        persist: u64,
+        /// a previous session: that many points of ANOTHER scenario are fed first, then reset() is called
+        /// and this scenario is the new session (its expectations are those of a fresh generator);
+        /// `toff` shifts this scenario's times behind the previous session
+        prelude: u64,
+        toff: i64,
     }
 
     fn variant_of(scn: &Value, seed: u64, vi: u64) -> Variant {
         if let Some(v) = scn.get("variant").filter(|v| v.is_object()) {
             return Variant { unit_ms: i(v, "unit_ms"), e10: i(v, "e10") as i32, init_ctor: b(v, "init_ctor"),
-                             live: v["live"].as_u64().unwrap_or(0), salt: v["salt"].as_u64().unwrap_or(0) };
+                             live: v["live"].as_u64().unwrap_or(0), salt: v["salt"].as_u64().unwrap_or(0),
+                             persist: v["persist"].as_u64().unwrap_or(0), prelude: v["prelude"].as_u64().unwrap_or(0), toff: 0 };
         }
         Variant {
             unit_ms: UNITS_MS[pick(seed, vi, 1, 4) as usize],
@@ -498,10 +625,14 @@ mod c18 {
             init_ctor: pick(seed, vi, 3, 2) == 1,
             live: pick(seed, vi, 4, 4),
             salt: pick(seed, vi, 5, 1 << 32),
+            persist: pick(seed, vi, 6, 3),
+            prelude: if pick(seed, vi, 8, 3) == 0 { 1 + pick(seed, vi, 9, 6) } else { 0 },
+            toff: 0,
         }
     }
     fn variant_json(v: Variant) -> Value {
-        json!({"unit_ms": v.unit_ms, "e10": v.e10, "init_ctor": v.init_ctor, "live": v.live, "salt": v.salt})
+        json!({"unit_ms": v.unit_ms, "e10": v.e10, "init_ctor": v.init_ctor, "live": v.live, "salt": v.salt,
+               "persist": v.persist, "prelude": v.prelude})
     }
     /// which live read follows point k: None | Some(false) generator | Some(true) tear sheet
     fn read_after(v: Variant, k: usize, flagged: bool) -> Option<bool> {
@@ -543,6 +674,16 @@ mod c18 {
         fn add(&mut self, k: usize, t: i64, v: Decimal) -> Result<Seen, String>;
         /// READ the current drawdown on the live object (`sheet`: through the tear sheet's generate())
         fn read(&mut self, sheet: bool) -> Result<Seen, String>;
+        /// store + restore the generators (serde; spec action Persist) and show the figures again
+        fn persist(&mut self) -> Result<Seen, String>;
+        /// a new session (spec action Reset): the public reset() of the tear sheet generators
+        /// (instrument: at once, with the start time `t`; asset: with the first balance of the new
+        /// session, i.e. when the next point arrives); raw: fresh generators
+        fn reset(&mut self, t: i64) -> Result<(), String>;
+    }
+    fn restore<T: serde::Serialize + serde::de::DeserializeOwned>(x: &mut T, what: &str) -> Result<(), String> {
+        *x = super::c17::roundtrip(x).map_err(|e| format!("Persist {what}: {e}"))?;
+        Ok(())
     }
 
     fn seen_of(g: &DrawdownGenerator, emitted: Option<Value>, max: &MaxDrawdownGenerator, mean: &MeanDrawdownGenerator,
@@ -603,6 +744,16 @@ mod c18 {
             s.read_cur = Some(opt_dd(got.as_ref()));
             Ok(s)
         }
+        fn persist(&mut self) -> Result<Seen, String> {
+            restore(self.g.as_mut().ok_or("persist before the first point")?, "DrawdownGenerator")?;
+            restore(&mut self.max, "MaxDrawdownGenerator")?;
+            restore(&mut self.mean, "MeanDrawdownGenerator")?;
+            self.seen(None)
+        }
+        fn reset(&mut self, _t: i64) -> Result<(), String> {
+            (self.g, self.max, self.mean) = (None, Default::default(), Default::default());
+            Ok(())
+        }
     }
     impl Raw {
         fn seen(&self, emitted: Option<Value>) -> Result<Seen, String> {
@@ -623,11 +774,16 @@ mod c18 {
         init_ctor: bool,
         folded: bool,
         bal: Option<Balance>,
+        pending_reset: bool,
     }
     impl Sut for AssetSut {
         fn add(&mut self, _k: usize, t: i64, v: Decimal) -> Result<Seen, String> {
             let bal = Balance::new(v, v / Decimal::TWO);
             match &mut self.g {
+                Some(g) if self.pending_reset => {
+                    self.pending_reset = false;
+                    catch(|| g.reset(&Timed::new(bal, time_ms(t))))?;
+                }
                 None if self.init_ctor => self.g = Some(TearSheetAssetGenerator::init(&Timed::new(bal, time_ms(t)))),
                 _ => {
                     let g = self.g.get_or_insert_with(TearSheetAssetGenerator::default);
@@ -649,6 +805,14 @@ mod c18 {
             let mut s = self.seen()?;
             s.read_cur = Some(opt_dd(got.as_ref()));
             Ok(s)
+        }
+        fn persist(&mut self) -> Result<Seen, String> {
+            restore(self.g.as_mut().ok_or("persist before the first point")?, "TearSheetAssetGenerator")?;
+            self.seen()
+        }
+        fn reset(&mut self, _t: i64) -> Result<(), String> {
+            (self.pending_reset, self.folded) = (self.g.is_some(), false);
+            Ok(())
         }
     }
     impl AssetSut {
@@ -706,8 +870,28 @@ mod c18 {
             s.read_cur = Some(opt_dd(got.as_ref()));
             Ok(s)
         }
+        fn persist(&mut self) -> Result<Seen, String> {
+            self.persist_()
+        }
+        fn reset(&mut self, t: i64) -> Result<(), String> {
+            self.reset_(t)
+        }
     }
     impl InstrSut {
+        fn persist_(&mut self) -> Result<Seen, String> {
+            restore(&mut self.g, "TearSheetGenerator")?;
+            self.seen()
+        }
+        fn reset_(&mut self, t: i64) -> Result<(), String> {
+            catch(|| self.g.reset(time_ms(t)))?;
+            (self.prev, self.folded) = (Decimal::ZERO, false);
+            // the public state of a reset generator is that of a freshly initialised one
+            let fresh = TearSheetGenerator::init(time_ms(t));
+            if self.g != fresh {
+                return Err(format!("reset: the generator is not in its initial state: {:?}", self.g));
+            }
+            Ok(())
+        }
         fn seen(&self) -> Result<Seen, String> {
             let mut once = self.g.clone();
             let sheet = catch(|| once.generate(Decimal::ZERO, Daily))?;
@@ -719,12 +903,12 @@ mod c18 {
     }
 
     /// expectation (spec time units) -> implementation units (ms)
-    fn exp_dd(e: &Value, unit: i64) -> Value {
+    fn exp_dd(e: &Value, v: Variant) -> Value {
         if let Some(alts) = e.get("anyOf").and_then(|a| a.as_array()) {
-            return json!({"anyOf": alts.iter().map(|a| exp_dd(a, unit)).collect::<Vec<_>>()});
+            return json!({"anyOf": alts.iter().map(|a| exp_dd(a, v)).collect::<Vec<_>>()});
         }
         if e.is_object() {
-            return json!({"value": e["value"], "start": i(e, "start") * unit, "end": i(e, "end") * unit});
+            return json!({"value": e["value"], "start": (i(e, "start") + v.toff) * v.unit_ms, "end": (i(e, "end") + v.toff) * v.unit_ms});
         }
         e.clone()
     }
@@ -762,25 +946,25 @@ mod c18 {
         let u = v.unit_ms;
         // running maximum and its time
         let (pv, pt) = s.peak.ok_or("peak: none after a point")?;
-        if pv != scaled_dec(i(&exp["peak"], "v"), v.e10) || pt != i(&exp["peak"], "t") * u {
-            return Err(format!("peak: expected value {}e{} at {} ms, got {pv} at {pt} ms", exp["peak"]["v"], v.e10, i(&exp["peak"], "t") * u));
+        if pv != scaled_dec(i(&exp["peak"], "v"), v.e10) || pt != (i(&exp["peak"], "t") + v.toff) * u {
+            return Err(format!("peak: expected value {}e{} at {} ms, got {pv} at {pt} ms", exp["peak"]["v"], v.e10, (i(&exp["peak"], "t") + v.toff) * u));
         }
         if let Some(em) = &s.emitted {
-            json_match(&exp_dd(&exp["emitted"], u), em, "emitted")?;
+            json_match(&exp_dd(&exp["emitted"], v), em, "emitted")?;
         }
         if let Some(r) = &s.read_cur {
-            json_match(&exp_dd(&exp["cur"], u), r, "read of the current drawdown")?;
+            json_match(&exp_dd(&exp["cur"], v), r, "read of the current drawdown")?;
         }
         let after = if s.read_cur.is_some() { " after the read" } else { "" };
-        json_match(&exp_dd(&exp["cur"], u), &s.cur, &format!("current{after}"))?;
-        json_match(&exp_dd(&exp["cur"], u), &s.fin_cur, &format!("generate().drawdown{after}"))?;
+        json_match(&exp_dd(&exp["cur"], v), &s.cur, &format!("current{after}"))?;
+        json_match(&exp_dd(&exp["cur"], v), &s.fin_cur, &format!("generate().drawdown{after}"))?;
         if s.folded {
             // a live tear-sheet generate() folded the current drawdown into Max / Mean (by design)
             return Ok(());
         }
-        json_match(&exp_dd(&exp["max"], u), &s.max, &format!("max{after}"))?;
+        json_match(&exp_dd(&exp["max"], v), &s.max, &format!("max{after}"))?;
         check_mean(&exp["mean"], &s.mean, s.count, u, &format!("mean{after}"))?;
-        json_match(&exp_dd(&exp["fin_max"], u), &s.fin_max, &format!("generate().drawdown_max{after}"))?;
+        json_match(&exp_dd(&exp["fin_max"], v), &s.fin_max, &format!("generate().drawdown_max{after}"))?;
         check_mean(&exp["fin_mean"], &s.fin_mean, None, u, &format!("generate().drawdown_mean{after}"))?;
         Ok(())
     }
@@ -833,7 +1017,7 @@ mod c18 {
     fn new_sut(mode: &str, init_ctor: bool) -> Box<dyn Sut> {
         match mode {
             "raw" => Box::new(Raw { g: None, max: Default::default(), mean: Default::default(), init_ctor }),
-            "asset" => Box::new(AssetSut { g: None, init_ctor, folded: false, bal: None }),
+            "asset" => Box::new(AssetSut { g: None, init_ctor, folded: false, bal: None, pending_reset: false }),
             "instr" => Box::new(InstrSut { g: TearSheetGenerator::init(time_ms(0)), prev: Decimal::ZERO, folded: false }),
             m => usage(&format!("unknown mode {m}")),
         }
@@ -844,13 +1028,13 @@ mod c18 {
     pub fn record(args: &Args) {
         let mut out = Out::create(args.req("out"));
         let mut curves = 0u64;
-        let emit = |out: &mut Out, mode: &str, ic: bool, k: usize, sut: &mut Box<dyn Sut>, t: i64, v: i64, read: bool| -> bool {
+        let emit = |out: &mut Out, mode: &str, ic: bool, k: usize, sut: &mut Box<dyn Sut>, t: i64, v: i64, read: bool, persist: bool| -> bool {
             let post = match sut.add(k, t * TRACE_UNIT_MS, Decimal::from(v)) {
                 Ok(s) => post_line(&s),
                 Err(p) => json!({"panic": p}),
             };
             let mut ok = post.get("panic").is_none();
-            out.line(&json!({"a": "AddPoint", "mode": mode, "ic": ic as u8, "t": t, "v": v, "post": post}));
+            out.line(&json!({"a": "AddPoint", "mode": mode, "ic": ic as u8, "rs": 0, "t": t, "v": v, "post": post}));
             if ok && read {
                 // a READ on the live generator: `cur` is what the read returned, `fin_cur` what is shown after it
                 let post = match sut.read(false) {
@@ -862,35 +1046,74 @@ mod c18 {
                     Err(p) => json!({"panic": p}),
                 };
                 ok = post.get("panic").is_none();
-                out.line(&json!({"a": "Read", "mode": mode, "ic": ic as u8, "t": 0, "v": 0, "post": post}));
+                out.line(&json!({"a": "Read", "mode": mode, "ic": ic as u8, "rs": 0, "t": 0, "v": 0, "post": post}));
+            }
+            if ok && persist {
+                // serde store + restore of the generators, then the figures again
+                let post = match sut.persist() {
+                    Ok(s) => post_line(&s),
+                    Err(p) => json!({"panic": p}),
+                };
+                ok = post.get("panic").is_none();
+                out.line(&json!({"a": "Persist", "mode": mode, "ic": ic as u8, "rs": 0, "t": 0, "v": 0, "post": post}));
             }
             ok
         };
         if args.cmd == "points" {
             let mode = args.str("mode", "raw");
             let pts = read_ndjson(args.req("in"));
-            let pts = pts[0].as_array().unwrap_or_else(|| usage("--in: one JSON array of [t, v] or [t, v, 1] (1 = read after the point)"));
+            let pts = pts[0].as_array().unwrap_or_else(|| usage("--in: one JSON array of [t, v] | [t, v, f] (f: 1 read, 2 store/restore, 3 both, after the point) | \"reset\""));
             let ic = args.u64("init_ctor", 0) == 1;
             let mut sut = new_sut(&mode, ic);
-            out.line(&json!({"a": "Reset", "mode": mode, "ic": ic as u8, "t": 0, "v": 0, "post": empty_post()}));
+            out.line(&json!({"a": "Reset", "mode": mode, "ic": ic as u8, "rs": 0, "t": 0, "v": 0, "post": empty_post()}));
             curves = 1;
-            for (k, p) in pts.iter().enumerate() {
-                if !emit(&mut out, &mode, ic, k, &mut sut, p[0].as_i64().unwrap(), p[1].as_i64().unwrap(), p.get(2).and_then(|x| x.as_i64()) == Some(1)) {
+            let mut k = 0;
+            for (j, p) in pts.iter().enumerate() {
+                if p == "reset" {
+                    // the public reset() on the generator that was fed the previous session
+                    let t = pts.get(j + 1).and_then(|q| q[0].as_i64()).unwrap_or(0);
+                    let post = match sut.reset(t * TRACE_UNIT_MS) { Ok(()) => empty_post(), Err(e) => json!({"panic": e}) };
+                    let ok = post.get("panic").is_none();
+                    out.line(&json!({"a": "Reset", "mode": mode, "ic": ic as u8, "rs": 1, "t": 0, "v": 0, "post": post}));
+                    k = 0;
+                    if !ok { break; }
+                    continue;
+                }
+                let f = p.get(2).and_then(|x| x.as_i64()).unwrap_or(0);
+                if !emit(&mut out, &mode, ic, k, &mut sut, p[0].as_i64().unwrap(), p[1].as_i64().unwrap(), f & 1 == 1, f & 2 == 2) {
                     break;
                 }
+                k += 1;
             }
         } else {
             let mut r = rng(args.u64("seed", 1));
             let steps = args.usize("steps", 3000);
             let mut n = 0;
+            let mut reuse: Option<(&str, bool, Box<dyn Sut>, i64)> = None;
             while n < steps {
-                let mode = MODES[r.random_range(0..MODES.len())];
-                let ic = r.random_bool(0.5);
-                let mut sut = new_sut(mode, ic);
-                out.line(&json!({"a": "Reset", "mode": mode, "ic": ic as u8, "t": 0, "v": 0, "post": empty_post()}));
+                // a new curve: a fresh generator, or (every other time) the PUBLIC reset() of the tear sheet
+                // generator that was fed the previous curve - either way a new session for the specification
+                let (mode, ic, mut sut, mut t, rs) = match reuse.take() {
+                    Some((m, ic, mut sut, t)) if r.random_bool(0.5) => {
+                        let t = t + r.random_range(0..=2);
+                        match sut.reset(t * TRACE_UNIT_MS) {
+                            Ok(()) => (m, ic, sut, t, 1),
+                            Err(e) => {
+                                out.line(&json!({"a": "Reset", "mode": m, "ic": ic as u8, "rs": 1, "t": 0, "v": 0, "post": {"panic": e}}));
+                                continue;
+                            }
+                        }
+                    }
+                    _ => {
+                        let mode = MODES[r.random_range(0..MODES.len())];
+                        let ic = r.random_bool(0.5);
+                        (mode, ic, new_sut(mode, ic), 0, 0)
+                    }
+                };
+                out.line(&json!({"a": "Reset", "mode": mode, "ic": ic as u8, "rs": rs, "t": 0, "v": 0, "post": empty_post()}));
                 curves += 1;
                 let len = r.random_range(1..=14);
-                let (mut t, mut peak, mut prev) = (0i64, 0i64, 0i64);
+                let (mut peak, mut prev) = (0i64, 0i64);
                 for k in 0..len {
                     t += r.random_range(0..=4); // equal consecutive times are legitimate
                     // bias towards the interesting points: back to the peak exactly, repeat, just above
@@ -905,10 +1128,12 @@ mod c18 {
                     prev = v;
                     n += 1;
                     let read = r.random_range(0..3) == 0;
-                    if !emit(&mut out, mode, ic, k, &mut sut, t, v, read) {
+                    let persist = r.random_range(0..4) == 0;
+                    if !emit(&mut out, mode, ic, k, &mut sut, t, v, read, persist) {
                         break;
                     }
                 }
+                reuse = Some((mode, ic, sut, t));
             }
         }
         let lines = out.finish();
@@ -923,10 +1148,21 @@ mod c18 {
         let mut by_mode = serde_json::Map::new();
         let (mut emitted_seen, mut current_seen, mut ties_seen) = (0u64, 0u64, 0u64);
         let (mut reads, mut equal_times, mut through_zero) = (0u64, 0u64, 0u64);
+        let (mut persists, mut resets) = (0u64, 0u64);
         for (n, scn) in scenarios.iter().enumerate() {
             let vi = vidx(scn, n);
-            let var = variant_of(scn, seed, vi);
+            let mut var = variant_of(scn, seed, vi);
             let pts = scn["pts"].as_array().unwrap_or_else(|| usage("scenario without pts"));
+            // the previous session (see Variant::prelude): points of another scenario of the file
+            let prelude: Vec<(i64, i64)> = match scn.get("variant").and_then(|v| v.get("prelude_pts")).and_then(|x| x.as_array()) {
+                Some(a) => a.iter().map(|p| (p[0].as_i64().unwrap(), p[1].as_i64().unwrap())).collect(),
+                None if var.prelude > 0 => {
+                    let other = &scenarios[(n + 1 + pick(seed, vi, 10, scenarios.len() as u64) as usize) % scenarios.len()];
+                    other["pts"].as_array().unwrap().iter().take(var.prelude as usize).map(|p| (i(p, "t"), i(p, "v"))).collect()
+                }
+                None => vec![],
+            };
+            var.toff = prelude.last().map(|(t, _)| t + pick(seed, vi, 11, 2) as i64).unwrap_or(0);
             for mode in MODES {
                 if only.as_deref().is_some_and(|m| m != mode) {
                     continue;
@@ -934,18 +1170,44 @@ mod c18 {
                 let mut sut = new_sut(mode, var.init_ctor);
                 let mut failure = None;
                 let mut pre = json!("initial");
+                if !prelude.is_empty() {
+                    // session 1, then the public reset(): what follows must be judged like a fresh generator
+                    resets += 1;
+                    let r = prelude.iter().enumerate().try_for_each(|(k, (t, v))| sut.add(k, t * var.unit_ms, scaled_dec(*v, var.e10)).map(|_| ()))
+                        .and_then(|_| sut.reset(var.toff * var.unit_ms));
+                    if let Err(e) = r {
+                        failure = Some((0, format!("reset: after the previous session {prelude:?}: {e}")));
+                    }
+                }
                 for (k, p) in pts.iter().enumerate() {
+                    if failure.is_some() {
+                        break;
+                    }
                     res.steps += 1;
                     let exp = &p["exp"];
+                    if p.get("reset").and_then(|x| x.as_bool()).unwrap_or(false) {
+                        // spec action Reset before this point
+                        resets += 1;
+                        if let Err(e) = sut.reset((i(p, "t") + var.toff) * var.unit_ms) {
+                            failure = Some((k, format!("reset: {e}")));
+                            break;
+                        }
+                    }
                     let val = scaled_dec(i(p, "v"), var.e10);
                     let flagged = p.get("read").and_then(|x| x.as_bool()).unwrap_or(false);
                     let show = |s: &Seen| json!({"peak": s.peak.map(|(p, t)| json!([p.to_string(), t])), "cur": s.cur, "max": s.max,
                             "mean": s.mean.as_ref().map(|m| json!([m.mean_drawdown.to_string(), m.mean_drawdown_ms]))});
-                    let mut r = sut.add(k, i(p, "t") * var.unit_ms, val).and_then(|s| check_step(exp, &s, var).map(|_| show(&s)));
+                    let mut r = sut.add(k, (i(p, "t") + var.toff) * var.unit_ms, val).and_then(|s| check_step(exp, &s, var).map(|_| show(&s)));
                     if let (Ok(_), Some(sheet)) = (&r, read_after(var, k, flagged)) {
                         // ReadCurrent: reading the live object must return the current drawdown and change nothing
                         reads += 1;
                         r = sut.read(sheet).and_then(|s| check_step(exp, &s, var).map(|_| show(&s)));
+                    }
+                    let pflag = p.get("persist").and_then(|x| x.as_bool()).unwrap_or(false);
+                    if r.is_ok() && (match var.persist { 1 => true, 2 => pick(var.salt, k as u64, 17, 2) == 1, _ => pflag }) {
+                        // Persist: a store / restore of the generators is a stutter
+                        persists += 1;
+                        r = sut.persist().and_then(|s| check_step(exp, &s, var).map_err(|e| format!("{e} (after a store/restore)")).map(|_| show(&s)));
                     }
                     match r {
                         Ok(shown) => pre = shown,
@@ -962,12 +1224,14 @@ mod c18 {
                         ties_seen += exp["fin_max"].get("anyOf").and_then(|a| a.as_array()).is_some_and(|a| a.len() > 1) as u64;
                     }
                 }
-                let extra = json!({"mode": mode, "variant": variant_json(var)});
+                let mut vj = variant_json(var);
+                vj["prelude_pts"] = json!(prelude.iter().map(|(t, v)| json!([t, v])).collect::<Vec<_>>());
+                let extra = json!({"mode": mode, "variant": vj});
                 *by_mode.entry(mode).or_insert(json!(0)) = json!(by_mode.get(mode).and_then(|x| x.as_u64()).unwrap_or(0) + 1);
                 match failure {
                     None => res.ok(n, vi, extra),
                     Some((k, e)) => {
-                        let ev = json!({"t": pts[k]["t"], "v": pts[k]["v"], "curve": pts[..=k].iter().map(|p| json!([p["t"], p["v"]])).collect::<Vec<_>>()});
+                        let ev = json!({"t": pts[k]["t"], "v": pts[k]["v"], "curve": pts[..=k].iter().map(|p| if p["reset"] == true { json!(["reset()", p["t"], p["v"]]) } else { json!([p["t"], p["v"]]) }).collect::<Vec<_>>()});
                         res.fail(n, vi, k, e, ev, pre, extra)
                     }
                 }
@@ -977,7 +1241,8 @@ mod c18 {
         res.out.finish();
         println!("{}", json!({"scenarios": scn, "failed": failed, "points": steps, "runs_by_mode": by_mode,
             "arm_hits": {"point_completes_a_drawdown": emitted_seen, "drawdown_in_progress": current_seen, "max_tie": ties_seen,
-                         "live_read": reads, "equal_consecutive_times": equal_times, "decline_through_zero": through_zero}}));
+                         "live_read": reads, "equal_consecutive_times": equal_times, "decline_through_zero": through_zero,
+                         "store_restore": persists, "reset": resets}}));
     }
 }
 
@@ -1282,6 +1547,13 @@ mod c16 {
         fn generate(&mut self) -> Result<Value, String>;
         /// the session clock moves without an event (TradingSummaryGenerator::update_time_now)
         fn tick(&mut self, _t: i64) {}
+        /// store + restore every running tear-sheet generator (spec action Persist: a stutter)
+        fn persist(&mut self) -> Result<(), String>;
+    }
+    fn restore<T: serde::Serialize + serde::de::DeserializeOwned + PartialEq + std::fmt::Debug>(x: &mut T, what: &str) -> Result<(), String> {
+        let back = super::c17::roundtrip(x).map_err(|e| format!("Persist {what}: {e}"))?;
+        *x = back;
+        Ok(())
     }
 
     fn exited<K>(instrument: K, p: &Plan, t_exit: i64) -> PositionExited<QuoteAsset, K> {
@@ -1327,6 +1599,10 @@ mod c16 {
             }
             Ok(json!({"instruments": i, "assets": a}))
         }
+        fn persist(&mut self) -> Result<(), String> {
+            self.inst.iter_mut().try_for_each(|g| restore(g, "TearSheetGenerator"))?;
+            self.assets.iter_mut().try_for_each(|g| restore(g, "TearSheetAssetGenerator"))
+        }
     }
 
     // ---- summary: a TradingSummaryGenerator initialised from an (empty) engine state
@@ -1345,6 +1621,10 @@ mod c16 {
         }
         fn tick(&mut self, t: i64) {
             self.g.update_time_now(time(t));
+        }
+        fn persist(&mut self) -> Result<(), String> {
+            self.g.instruments.values_mut().try_for_each(|g| restore(g, "TearSheetGenerator"))?;
+            self.g.assets.values_mut().try_for_each(|g| restore(g, "TearSheetAssetGenerator"))
         }
         fn balance(&mut self, asset: usize, total: Decimal, step: u64, by_name: bool) -> Result<(), String> {
             if by_name {
@@ -1448,6 +1728,10 @@ mod c16 {
             keys_agree(&g)?;
             Ok(summary_json(&catch(|| g.generate(Daily))?))
         }
+        fn persist(&mut self) -> Result<(), String> {
+            self.e.state.instruments.0.values_mut().try_for_each(|st| restore(&mut st.tear_sheet, "TearSheetGenerator"))?;
+            self.e.state.assets.0.values_mut().try_for_each(|st| restore(&mut st.statistics, "TearSheetAssetGenerator"))
+        }
     }
 
     /// An InstrumentIndex / AssetIndex and the name it stands for must resolve to the same tear sheet
@@ -1495,7 +1779,7 @@ mod c16 {
         let scenarios = read_ndjson(args.req("scenarios"));
         let mut res = Results::new(args.req("out"));
         let mut tool_errors = vec![];
-        let mut arms = [0u64; 10]; // wins, losses, break-even, balances, generate, by-name keys, flips, equal exits, late exits, clock ticks
+        let mut arms = [0u64; 11]; // wins, losses, break-even, balances, generate, by-name keys, flips, equal exits, late exits, clock ticks
         for (n, scn) in scenarios.iter().enumerate() {
             let vi = vidx(scn, n);
             let var = variant_of(scn, seed, vi);
@@ -1551,17 +1835,25 @@ mod c16 {
                         arms[4] += 1;
                         sut.generate().map(|_| ())
                     }
+                    "Persist" => {
+                        arms[10] += 1;
+                        sut.persist()
+                    }
                     a => usage(&format!("unknown action {a}")),
                 };
                 // the summary a generate() returns now must be the summary of the histories
-                let got = applied.and_then(|_| sut.generate());
+                // ... also when the running generators were stored and restored in between
+                let stored = s(e, "a") != "Persist" && pick(var.salt, step, 15, 5) == 0;
+                arms[10] += stored as u64;
+                shown["stored_and_restored_after"] = json!(stored);
+                let got = applied.and_then(|_| if stored { sut.persist() } else { Ok(()) }).and_then(|_| sut.generate());
                 match got {
                     Err(p) if p.starts_with("TOOL:") => {
                         tool_errors.push(format!("scenario {n} step {k}: {p}"));
                         break;
                     }
                     Err(p) => {
-                        failure = Some((k, if p.starts_with("KEYS:") { format!("summary.keys: {p}") } else { format!("panic: {p}") }, shown));
+                        failure = Some((k, if p.starts_with("KEYS:") { format!("summary.keys: {p}") } else if p.starts_with("Persist") { format!("summary.persist: {p}") } else { format!("panic: {p}") }, shown));
                         break;
                     }
                     Ok(actual) => match json_match(&complete(&e["exp"], var.e10), &actual, "summary") {
@@ -1583,6 +1875,6 @@ mod c16 {
         res.out.finish();
         println!("{}", json!({"scenarios": scn, "failed": failed, "events": steps, "mode": mode, "tool_errors": tool_errors,
             "arm_hits": {"win": arms[0], "loss": arms[1], "break_even": arms[2], "balance": arms[3], "generate_event": arms[4], "keyed_by_name": arms[5],
-                         "crossing_fill": arms[6], "equal_exit_time": arms[7], "late_reported_exit": arms[8], "clock_update": arms[9]}}));
+                         "crossing_fill": arms[6], "equal_exit_time": arms[7], "late_reported_exit": arms[8], "clock_update": arms[9], "store_restore": arms[10]}}));
     }
 }
